@@ -129,14 +129,19 @@ Qed.
 (* ---- with ---- *)
 Definition finished_o (o : outcome) : bool := match o with Done _ | Exc _ _ => true | _ => false end.
 
+(* what `with` w does when it ends: the restores, most recent first, and their trace *)
+Definition with_undo (w : nat) (rs : list deferred) (s : state) : state :=
+  emit (apply_restores s rs) (rev (map (GWRestore w) rs)).
+
 (* every assignment succeeded: whatever way the body is left (o' is any
    finished outcome: normal, exception, break, continue, return), the collected
    restores are applied, most recent first, and the outcome is the body's *)
 Lemma with_restores_reverse run assigns body inp s s1 vs s3 o' :
-  with_assigns run assigns (set_wrest s []) = (s1, Done vs) ->
-  call_block run body (set_wrest s1 (st_wrest s)) = (s3, o') ->
+  with_assigns run assigns (enter_with (set_wrest s [])) = (s1, Done vs) ->
+  call_block run body (leave_with (set_wrest s1 (st_wrest s)) (g_wid (st_ghost s))) = (s3, o') ->
   finished_o o' = true ->
-  step_cmd run (CWith assigns body) inp s = (apply_restores s3 (st_wrest s1), norm o').
+  step_cmd run (CWith assigns body) inp s
+  = (with_undo (g_next (st_ghost s)) (st_wrest s1) s3, norm o').
 Proof.
   intros Ha Hb Hf. unfold step_cmd. rewrite Ha. simpl. rewrite Hb.
   destruct o'; simpl in *; try discriminate; reflexivity.
@@ -144,35 +149,48 @@ Qed.
 
 (* an assignment raised: the body is not run, the assignments made so far are undone *)
 Lemma with_partial_assign_restored run assigns body inp s s1 k p :
-  with_assigns run assigns (set_wrest s []) = (s1, Exc k p) ->
+  with_assigns run assigns (enter_with (set_wrest s [])) = (s1, Exc k p) ->
   step_cmd run (CWith assigns body) inp s
-  = (apply_restores (set_wrest s1 (st_wrest s)) (st_wrest s1), Exc k p).
+  = (with_undo (g_next (st_ghost s)) (st_wrest s1)
+       (leave_with (set_wrest s1 (st_wrest s)) (g_wid (st_ghost s))), Exc k p).
 Proof. intros Ha. unfold step_cmd. rewrite Ha. reflexivity. Qed.
 
 (* ---- frames: tmp and defer ---- *)
-Lemma run_defers_restores_only run : forall rs s first,
+Lemma store_emit s es : st_store (emit s es) = st_store s.
+Proof. reflexivity. Qed.
+
+Lemma run_defers_restores_only run fid : forall rs s first,
   (forall d, In d rs -> exists a v, d = DRestore a v) ->
-  run_defers run rs s first
-  = match first with None => ret (apply_restores s rs) [] | Some (k, p) => throw (apply_restores s rs) k p end.
+  exists s', st_store s' = st_store (apply_restores s rs)
+    /\ run_defers run fid rs s first
+       = match first with None => ret s' [] | Some (k, p) => throw s' k p end.
 Proof.
   induction rs as [|d r IH]; intros s first H; simpl.
-  - destruct first as [[k p]|]; reflexivity.
-  - destruct (H d (or_introl eq_refl)) as (a & v & ->). apply IH.
-    intros d' Hd'. apply H. right; exact Hd'.
+  - exists s. split; [reflexivity|]. destruct first as [[k p]|]; reflexivity.
+  - destruct (H d (or_introl eq_refl)) as (a & v & ->).
+    destruct (IH (emit (store_at s a v) [GRun fid (DRestore a v)]) first) as (s' & Hs & Hr).
+    { intros d' Hd'. apply H. right; exact Hd'. }
+    exists s'. split; [|exact Hr]. rewrite Hs.
+    assert (E : forall rs s1 s2, st_store s1 = st_store s2 ->
+                st_store (apply_restores s1 rs) = st_store (apply_restores s2 rs)).
+    { clear. induction rs as [|[a v|f] r IH]; intros s1 s2 E; simpl; auto.
+      apply IH. unfold store_at; simpl. rewrite E. reflexivity. }
+    apply E. reflexivity.
 Qed.
 
 (* run_defers consumes the frame's list front to back (most recent first),
    each entry exactly once: a restore is a store write, a callback is one call
    with no arguments whose exception is kept only if it is the first *)
-Lemma defers_once_reverse run :
-  (forall s first, run_defers run [] s first
+Lemma defers_once_reverse run fid :
+  (forall s first, run_defers run fid [] s first
      = match first with None => ret s [] | Some (k, p) => throw s k p end)
   /\ (forall a v r s first,
-       run_defers run (DRestore a v :: r) s first = run_defers run r (store_at s a v) first)
+       run_defers run fid (DRestore a v :: r) s first
+       = run_defers run fid r (emit (store_at s a v) [GRun fid (DRestore a v)]) first)
   /\ (forall f r s first,
-       run_defers run (DCall f :: r) s first
-       = settle (run (TCall f [] [] []) s) (fun s' o =>
-           run_defers run r s'
+       run_defers run fid (DCall f :: r) s first
+       = settle (run (TCall f [] [] []) (emit s [GRun fid (DCall f)])) (fun s' o =>
+           run_defers run fid r s'
              match first, o with
              | None, Exc k p => Some (k, p)
              | _, _ => first
@@ -182,33 +200,34 @@ Proof. repeat split. Qed.
 (* a deferred callback that succeeds does not alter the result: the remaining
    list is processed from the callback's final state with the same pending
    exception, exactly as if the entry had only had its side effects *)
-Lemma defer_success_contributes_nothing run f r s first s' vs :
-  run (TCall f [] [] []) s = (s', Done vs) ->
-  run_defers run (DCall f :: r) s first = run_defers run r s' first.
+Lemma defer_success_contributes_nothing run fid f r s first s' vs :
+  run (TCall f [] [] []) (emit s [GRun fid (DCall f)]) = (s', Done vs) ->
+  run_defers run fid (DCall f :: r) s first = run_defers run fid r s' first.
 Proof.
   intros H. simpl. rewrite H. simpl. destruct first; reflexivity.
 Qed.
 
 (* ... so a frame whose callbacks all succeed ends with the body's own outcome *)
-Lemma defers_all_succeed_keep_outcome run : forall ds s,
+Lemma defers_all_succeed_keep_outcome run fid : forall ds s,
   (forall d, In d ds -> match d with
                         | DRestore _ _ => True
                         | DCall f => forall s0, exists s1 vs, run (TCall f [] [] []) s0 = (s1, Done vs)
                         end) ->
-  exists s', run_defers run ds s None = ret s' [].
+  exists s', run_defers run fid ds s None = ret s' [].
 Proof.
   induction ds as [|[a v|f] r IH]; intros s H; simpl.
   - exists s; reflexivity.
   - apply IH. intros d Hd; apply H; right; exact Hd.
-  - destruct (H (DCall f) (or_introl eq_refl) s) as (s1 & vs & E). rewrite E. simpl.
-    apply IH. intros d Hd; apply H; right; exact Hd.
+  - destruct (H (DCall f) (or_introl eq_refl) (emit s [GRun fid (DCall f)])) as (s1 & vs & E).
+    rewrite E. simpl. apply IH. intros d Hd; apply H; right; exact Hd.
 Qed.
 
 (* registration order: `defer` and `tmp` push on the front of the frame's list *)
 Lemma defer_registers_front run f s :
   st_infn s = true ->
   (exists a r o b c i, f = VClos a r o b c i) ->
-  apply_builtin run BDefer [f] [] [] s = ret (set_defers s (DCall f :: st_defers s)) [].
+  apply_builtin run BDefer [f] [] [] s
+  = ret (emit (set_defers s (DCall f :: st_defers s)) [GReg (g_frame (st_ghost s)) (DCall f)]) [].
 Proof. intros Hin (a & r & o & b & c & i & ->). simpl. rewrite Hin. reflexivity. Qed.
 
 (* The closure call: however the body ends (o is any finished outcome), the
@@ -218,21 +237,22 @@ Lemma closure_runs_defers_once run args rest opts body cenv isfn vals sopts s va
   distribute rest (length args) vals = Some vals' ->
   bind_opts opts sopts = Some obs ->
   alloc_all s (combine args vals' ++ obs) cenv = (s1, e1) ->
-  run (TChunk body) (set_frame s1 e1 [] true) = (s3, o) ->
+  run (TChunk body) (enter_frame (set_frame s1 e1 [] true)) = (s3, o) ->
   finished_o o = true ->
   call_closure run args rest opts body cenv isfn vals sopts s
   = let o1 := match o with
                | Exc KReturn _ => if isfn then Done [] else o
                | _ => norm o
                end in
-    settle (run_defers run (st_defers s3) (set_defers s3 []) None) (fun s4 o' =>
-      (set_frame s4 (st_env s) (st_defers s) (st_infn s),
+    let fid := g_next (st_ghost s1) in
+    settle (run_defers run fid (st_defers s3) (set_defers s3 []) None) (fun s4 o' =>
+      (leave_frame (set_frame s4 (st_env s) (st_defers s) (st_infn s)) fid (g_frame (st_ghost s)),
        match o1 with
        | Done _ => norm o'
        | _ => o1
        end)).
 Proof.
-  intros Hd Hb Ha Hr Hf. unfold call_closure. rewrite Hd, Hb, Ha, Hr.
+  intros Hd Hb Ha Hr Hf. unfold call_closure. rewrite Hd, Hb, Ha. cbv zeta. rewrite Hr.
   destruct o; simpl in *; try discriminate; reflexivity.
 Qed.
 
@@ -242,7 +262,7 @@ Lemma tmp_restores_at_fn_exit run args rest opts body cenv isfn vals sopts s val
   distribute rest (length args) vals = Some vals' ->
   bind_opts opts sopts = Some obs ->
   alloc_all s (combine args vals' ++ obs) cenv = (s1, e1) ->
-  run (TChunk body) (set_frame s1 e1 [] true) = (s3, o) ->
+  run (TChunk body) (enter_frame (set_frame s1 e1 [] true)) = (s3, o) ->
   finished_o o = true ->
   (forall d, In d (st_defers s3) -> exists a v, d = DRestore a v) ->
   st_store (fst (call_closure run args rest opts body cenv isfn vals sopts s))
@@ -250,7 +270,10 @@ Lemma tmp_restores_at_fn_exit run args rest opts body cenv isfn vals sopts s val
 Proof.
   intros Hd Hb Ha Hr Hf Honly.
   rewrite (closure_runs_defers_once _ _ _ _ _ _ _ _ _ _ _ _ _ _ _ _ Hd Hb Ha Hr Hf).
-  cbv zeta. rewrite run_defers_restores_only by exact Honly. simpl.
+  cbv zeta.
+  destruct (run_defers_restores_only run (g_next (st_ghost s1)) (st_defers s3) (set_defers s3 []) None Honly)
+    as (s' & Hs & ->).
+  simpl. rewrite Hs.
   assert (E : forall s rs, st_store (apply_restores (set_defers s []) rs) = st_store (apply_restores s rs)).
   { intros s0 rs; revert s0; induction rs as [|[a v|f] r IH]; intros s0; simpl; auto.
     change (store_at (set_defers s0 []) a v) with (set_defers (store_at s0 a v) []). apply IH. }
@@ -262,13 +285,13 @@ Lemma defer_exception_masked_by_body run args rest opts body cenv vals sopts s v
   distribute rest (length args) vals = Some vals' ->
   bind_opts opts sopts = Some obs ->
   alloc_all s (combine args vals' ++ obs) cenv = (s1, e1) ->
-  run (TChunk body) (set_frame s1 e1 [] true) = (s3, Exc k p) ->
+  run (TChunk body) (enter_frame (set_frame s1 e1 [] true)) = (s3, Exc k p) ->
   finished_o (snd (call_closure run args rest opts body cenv false vals sopts s)) = true ->
   snd (call_closure run args rest opts body cenv false vals sopts s) = Exc k p.
 Proof.
   intros Hd Hb Ha Hr Hfin.
   rewrite (closure_runs_defers_once _ _ _ _ _ _ false _ _ _ _ _ _ _ _ _ Hd Hb Ha Hr eq_refl) in *.
   cbv zeta in *.
-  destruct (run_defers run (st_defers s3) (set_defers s3 []) None) as [s4 [vs|k' p'| |]];
+  destruct (run_defers run (g_next (st_ghost s1)) (st_defers s3) (set_defers s3 []) None) as [s4 [vs|k' p'| |]];
     simpl in *; try discriminate; destruct k; reflexivity.
 Qed.
